@@ -1,6 +1,6 @@
 from datetime import datetime, timedelta
 import re
-from .date import DATEADD, NOW, DTIME
+from .date import NOW, DTIME
 
 # Limit exports to schedule, so that upper-case constants like MONTH_NAMES, DAY_NAMES don't end up
 # exposed as if Excel-style functions (or break docs generation).
@@ -114,7 +114,12 @@ class Delta(object):
     return self
 
   def add_to(self, dtime):
-    return datetime.combine(DATEADD(dtime, months=self._months), dtime.timetz()) + self._timedelta
+    # Add the months here rather than through DATEADD()/DATE(), which follow the spreadsheet
+    # convention of adding 1900 to years below 1900. As there, a day past the end of the resulting
+    # month rolls over into the following one.
+    year, month0 = divmod(dtime.year * 12 + (dtime.month - 1) + self._months, 12)
+    shifted = dtime.replace(year=year, month=month0 + 1, day=1) + timedelta(days=dtime.day - 1)
+    return shifted + self._timedelta
 
 
 class Schedule(object):
